@@ -239,6 +239,7 @@ PRIMITIV_C_STATUS primitivApplyNodeConcat(
     primitivNode_t **y) try {
   PRIMITIV_C_CHECK_NOT_NULL(xs);
   PRIMITIV_C_CHECK_NOT_NULL(y);
+  PRIMITIV_C_CHECK_NOT_NULL_ARRAY(xs, n);
   const Node *const *_xs = reinterpret_cast<const Node *const *>(xs);
   *y = to_c_ptr_from_value(primitiv::functions::concat(
       std::vector<const Node*>(_xs, _xs + n), dim));
@@ -250,6 +251,7 @@ PRIMITIV_C_STATUS primitivApplyTensorConcat(
     primitivTensor_t **y) try {
   PRIMITIV_C_CHECK_NOT_NULL(xs);
   PRIMITIV_C_CHECK_NOT_NULL(y);
+  PRIMITIV_C_CHECK_NOT_NULL_ARRAY(xs, n);
   const Tensor *const *_xs = reinterpret_cast<const Tensor *const *>(xs);
   *y = to_c_ptr_from_value(primitiv::functions::concat(
       std::vector<const Tensor*>(_xs, _xs + n), dim));
@@ -682,6 +684,7 @@ PRIMITIV_C_STATUS primitivApplyNodeBatchConcat(
     primitivNode_t **y) try {
   PRIMITIV_C_CHECK_NOT_NULL(xs);
   PRIMITIV_C_CHECK_NOT_NULL(y);
+  PRIMITIV_C_CHECK_NOT_NULL_ARRAY(xs, n);
   const Node *const *_xs = reinterpret_cast<const Node *const *>(xs);
   *y = to_c_ptr_from_value(primitiv::functions::batch::concat(
       std::vector<const Node*>(_xs, _xs + n)));
@@ -693,6 +696,7 @@ PRIMITIV_C_STATUS primitivApplyTensorBatchConcat(
     primitivTensor_t **y) try {
   PRIMITIV_C_CHECK_NOT_NULL(xs);
   PRIMITIV_C_CHECK_NOT_NULL(y);
+  PRIMITIV_C_CHECK_NOT_NULL_ARRAY(xs, n);
   const Tensor *const *_xs = reinterpret_cast<const Tensor *const *>(xs);
   *y = to_c_ptr_from_value(primitiv::functions::batch::concat(
       std::vector<const Tensor*>(_xs, _xs + n)));
@@ -861,6 +865,7 @@ PRIMITIV_C_STATUS primitivApplyNodeSumNodes(
     const primitivNode_t *const *xs, size_t n, primitivNode_t **y) try {
   PRIMITIV_C_CHECK_NOT_NULL(xs);
   PRIMITIV_C_CHECK_NOT_NULL(y);
+  PRIMITIV_C_CHECK_NOT_NULL_ARRAY(xs, n);
   const Node *const *_xs = reinterpret_cast<const Node *const *>(xs);
   *y = to_c_ptr_from_value(
       primitiv::functions::sum(std::vector<const Node*>(_xs, _xs + n)));
@@ -871,6 +876,7 @@ PRIMITIV_C_STATUS primitivApplyTensorSumTensors(
     const primitivTensor_t *const *xs, size_t n, primitivTensor_t **y) try {
   PRIMITIV_C_CHECK_NOT_NULL(xs);
   PRIMITIV_C_CHECK_NOT_NULL(y);
+  PRIMITIV_C_CHECK_NOT_NULL_ARRAY(xs, n);
   const Tensor *const *_xs = reinterpret_cast<const Tensor *const *>(xs);
   *y = to_c_ptr_from_value(
       primitiv::functions::sum(std::vector<const Tensor*>(_xs, _xs + n)));
@@ -897,6 +903,7 @@ PRIMITIV_C_STATUS primitivApplyNodeMeanNodes(
     const primitivNode_t *const *xs, size_t n, primitivNode_t **y) try {
   PRIMITIV_C_CHECK_NOT_NULL(xs);
   PRIMITIV_C_CHECK_NOT_NULL(y);
+  PRIMITIV_C_CHECK_NOT_NULL_ARRAY(xs, n);
   const Node *const *_xs = reinterpret_cast<const Node *const *>(xs);
   *y = to_c_ptr_from_value(
       primitiv::functions::mean(std::vector<const Node*>(_xs, _xs + n)));
@@ -907,6 +914,7 @@ PRIMITIV_C_STATUS primitivApplyTensorMeanTensors(
     const primitivTensor_t *const *xs, size_t n, primitivTensor_t **y) try {
   PRIMITIV_C_CHECK_NOT_NULL(xs);
   PRIMITIV_C_CHECK_NOT_NULL(y);
+  PRIMITIV_C_CHECK_NOT_NULL_ARRAY(xs, n);
   const Tensor *const *_xs = reinterpret_cast<const Tensor *const *>(xs);
   *y = to_c_ptr_from_value(
       primitiv::functions::mean(std::vector<const Tensor*>(_xs, _xs + n)));
